@@ -150,6 +150,8 @@ class Region(object):
         if depth not in self.pixeldict:
             self.pixeldict[depth] = set()
         self.pixeldict[depth].update(set(pix))
+        # the cached deepest-level representation is now out of date
+        self.demoted = set()
 
     def get_area(self, degrees=True):
         """
